@@ -342,7 +342,6 @@ func runTLSFile(in, out, tmp string) (int, error) {
 	return n, sc.Err()
 }
 
-
 // contentBytes renders a content class of the CA file: one authority, both (a bundle), nothing, or no certificate at all.
 func contentBytes(cas map[string]*testCA, c string) []byte {
 	switch c {
